@@ -75,8 +75,80 @@ class EventModel:
         return lf.cells[('H', 'self')][3][self.i_mod][3]
 
 
+def check_event_constructor(ctx, rep):
+    """`KeyEvent::new(code, state)` is how events enter the event decoder through the public API: it must store exactly
+    the key and the state it is given (a constructor that folds one key or state into another makes every statement
+    about 'the key pressed' false for the folded ones)."""
+    a = ctx.prog.adts.get('KeyEvent')
+    cands = [f for f in ctx.facts['fns'] if f['name'] == 'new' and (f.get('impl_self') or {}).get('path') == 'KeyEvent' and not f.get('impl_trait')]
+    if a is None or len(cands) != 1:
+        rep.note('KeyEvent::new not found as a unique inherent function (not judged)')
+        return
+    f = cands[0]
+    names = [fl['name'] for fl in a['variants'][0]['fields']]
+    try:
+        eng = Engine(ctx.prog)
+        leaves = eng.run(f['path'], arg_names=['code', 'state'])
+        check_partition(eng, leaves)
+    except Undecided as u:
+        rep.finding('%s KeyEvent::new undecided' % rep.prop, str(u))
+        return
+    for lf in leaves:
+        ok = lf.kind == 'return' and lf.ret is not None and lf.ret[0] == 'adt' and lf.ret[1] == 'KeyEvent' and len(lf.ret[3]) == len(names)
+        if ok:
+            for nm, v in zip(names, lf.ret[3]):
+                if nm in ('code', 'state') and v != ('a', nm, v[2] if len(v) > 2 else None):
+                    ok = False
+        rep.ob('KeyEvent::new stores its arguments', 1, 1 if ok else 0)
+        if not ok:
+            narrowed = ', '.join('%s in %s' % (n, sorted(lf.doms[n])[:6]) for n in ('code', 'state') if n in lf.doms and eng.full_doms.get(n) is not None
+                                 and len(lf.doms[n]) != len(eng.full_doms[n]))
+            rep.finding('%s KeyEvent::new does-not-store-its-arguments' % rep.prop,
+                        'KeyEvent::new returns %s for %s; %s' % (term_str(lf.ret) if lf.ret is not None else lf.kind, narrowed or 'every input', leaf_where(lf)))
+
+
+def check_clone_faithful(ctx, rep, type_names):
+    """A hand-written `Clone` of a state type must produce an equal state (a derived one does by construction): otherwise
+    the copy's state is not the history it was copied from."""
+    for f in ctx.facts['fns']:
+        if f.get('derived') or f['name'] != 'clone' or (f.get('impl_trait') or '') not in ('core::clone::Clone', 'Clone'):
+            continue
+        st = f.get('impl_self') or {}
+        if st.get('k') != 'adt' or st.get('path', '').split('::')[-1] not in type_names:
+            continue
+        try:
+            eng = Engine(ctx.prog)
+            leaves = eng.run(f['path'], arg_names=['self'])
+            check_partition(eng, leaves)
+        except Undecided as u:
+            rep.finding('%s clone-of-%s undecided' % (rep.prop, st['path'].split('::')[-1]), 'hand-written Clone impl %s could not be analysed: %s' % (f['path'], u))
+            continue
+        for lf in leaves:
+            src = lf.cells.get(('H', 'self'))
+            ok = lf.kind == 'return' and src is not None and lf.ret is not None and lf.ret[0] == 'adt' and src[0] == 'adt' and len(lf.ret[3]) == len(src[3])
+            bad_field = None
+            if ok:
+                clone_rets = {}
+                for c in lf.calls:
+                    if c['callee'].endswith('Clone::clone') and c['args'] and c['args'][0][0] == 'ref':
+                        clone_rets[repr(c['ret'])] = (c['args'][0][1], tuple(c['args'][0][2]))
+                for i, (x, y) in enumerate(zip(lf.ret[3], src[3])):
+                    if x == y:
+                        continue
+                    if clone_rets.get(repr(x)) == (('H', 'self'), (('f', i),)):
+                        continue       # `self.field.clone()` of a generic field
+                    ok, bad_field = False, i
+            rep.ob('hand-written Clone impls copy the state', 1, 1 if ok else 0)
+            if not ok:
+                rep.finding('%s clone-of-%s is-not-a-copy' % (rep.prop, st['path'].split('::')[-1]),
+                            '%s returns a value whose field %s differs from the original\'s (%s); %s' % (
+                                f['path'], bad_field, term_str(lf.ret) if lf.ret is not None else lf.kind, leaf_where(lf)))
+
+
 def check_modifiers(ctx, rep, tier):
     """C04"""
+    check_event_constructor(ctx, rep)
+    check_clone_faithful(ctx, rep, ('EventDecoder', 'Modifiers', 'Keyboard'))
     keys = load_keys()
     m = EventModel(ctx)
     kc, ks = ctx.kc, ctx.ks
@@ -170,6 +242,15 @@ def check_modifiers(ctx, rep, tier):
                         for body in iter_bodies(f) for t_ in [bb['term'] for bb in body['blocks']])
         if not (builds or calls_new):
             continue
+
+        def mentions_ed(t):
+            if not isinstance(t, dict):
+                return False
+            if t.get('k') == 'adt' and t.get('path') in (ED, 'Keyboard'):
+                return True
+            return any(mentions_ed(x) for key in ('args', 'elems') for x in (t.get(key) or [])) or any(mentions_ed(t[key]) for key in ('to', 'elem') if key in t)
+        if any(mentions_ed(t) for t in f.get('inputs', [])):
+            continue    # builds a decoder FROM a decoder (Clone, a builder-style conversion): not a start state; Clone has its own rule
         try:
             e5 = Engine(ctx.prog)
             for lf in e5.run(f['path']):
@@ -344,6 +425,8 @@ def same_modifiers(ctx, a, b):
 
 def check_decoding(ctx, rep, tier):
     """C14"""
+    check_event_constructor(ctx, rep)
+    check_clone_faithful(ctx, rep, ('EventDecoder', 'Keyboard'))
     keys = load_keys()
     m = EventModel(ctx)
     kc, ks = ctx.kc, ctx.ks
